@@ -291,6 +291,15 @@ def replay(record):
         dvals = torch.tensor([4.0, 1.0, 9.0, 2.0][:n], dtype=torch.float64)
         cands.append((torch.diag(dvals), torch.eye(n, dtype=torch.float64)))
         cands.append((torch.diag(dvals), torch.eye(n, dtype=torch.float64)[:, torch.arange(n - 1, -1, -1)]))
+        # singular PSD input with an exact zero row / column and an estimate containing that null vector (A @ Q has an exact zero column)
+        svals = dvals.clone()
+        svals[min(1, n - 1)] = 0.0
+        cands.append((torch.diag(svals), torch.eye(n, dtype=torch.float64)))
+        # ... the smallest such input that is not diagonal has order 3 (tried whatever the order of the symbolic job: the clause is about the routine)
+        S3 = torch.zeros(3, 3, dtype=torch.float64)
+        S3[:2, :2] = torch.tensor([[2.0, 1.0], [1.0, 2.0]], dtype=torch.float64)
+        cands.append((S3, torch.eye(3, dtype=torch.float64)))
+        cands.append((S3[[2, 0, 1]][:, [2, 0, 1]].contiguous(), torch.eye(3, dtype=torch.float64)))
         if n >= 3:
             Bd = torch.zeros(n, n, dtype=torch.float64)
             Bd[:2, :2] = torch.tensor([[2.0, 1.0], [1.0, 2.0]], dtype=torch.float64)
@@ -301,11 +310,13 @@ def replay(record):
             B = torch.randn(n, n, dtype=torch.float64, generator=g)
             cands.append((B @ B.T, torch.randn(n, n, dtype=torch.float64, generator=g)))
         for Ac, Ec in cands:
+            n_ = Ac.shape[0]
             E, _ = torch.linalg.qr(Ec)
             Q = M.matrix_eigenvectors(Ac, E, QRConfig(max_iterations=it, tolerance=0.0))
-            ray = torch.stack([Q[:, j] @ Ac @ Q[:, j] for j in range(n)])
-            if not torch.allclose(Q.T @ Q, torch.eye(n, dtype=torch.float64), atol=1e-8):
-                probs.append("result not orthonormal")
+            ray = torch.stack([Q[:, j] @ Ac @ Q[:, j] for j in range(n_)])
+            if not torch.isfinite(Q).all() or not torch.allclose(Q.T @ Q, torch.eye(n_, dtype=torch.float64), atol=1e-8):
+                probs.append(f"result not finite / not orthonormal for A={Ac.tolist()} estimate={E.tolist()}")
+                break
             if (ray[1:] < ray[:-1] - 1e-9 * (1 + ray.abs().max())).any():
                 probs.append(f"columns not ordered by ascending Rayleigh quotient: {ray.tolist()} for A={Ac.tolist()} estimate={E.tolist()}")
             P = E
@@ -313,8 +324,8 @@ def replay(record):
                 P, _ = torch.linalg.qr(Ac @ P)
             # the result is the last iterate of the documented orthogonal iteration up to column order and signs: |P^T Q| is a permutation matrix
             W = (P.T @ Q).abs()
-            if not (torch.allclose(W.max(dim=0).values, torch.ones(n, dtype=torch.float64), atol=1e-6) and torch.allclose(W.sum(dim=0), torch.ones(n, dtype=torch.float64), atol=1e-5)
-                    and torch.allclose(W.sum(dim=1), torch.ones(n, dtype=torch.float64), atol=1e-5)):
+            if not (torch.allclose(W.max(dim=0).values, torch.ones(n_, dtype=torch.float64), atol=1e-6) and torch.allclose(W.sum(dim=0), torch.ones(n_, dtype=torch.float64), atol=1e-5)
+                    and torch.allclose(W.sum(dim=1), torch.ones(n_, dtype=torch.float64), atol=1e-5)):
                 probs.append(f"result is not the {it}-step orthogonal-iteration update of the estimate (up to column order and signs) for A={Ac.tolist()} estimate={E.tolist()}")
             if probs:
                 break
